@@ -429,7 +429,7 @@ def run(ctx):
     ctx.assumptions += [
         "FontMatrix / BlueScale values are either equal to the default or farther from it than the writer's "
         "tolerance (1e-5 / 1e-6); |reals| in 1e-290..1e290 with at most nine digits; 1e-3 <= |ItalicAngle| < 180",
-        "BlueValues/OtherBlues deltas fit in int16; widths are integers or 16.16 fractions below 50000 in magnitude",
+        "BlueValues/OtherBlues values fit in int16 (their deltas need not: pattern wide); widths are integers or 16.16 fractions below 50000 in magnitude",
         "strings are printable ASCII; glyph outlines are fixed small shapes (outline fidelity is C04/C05)",
         "an absent Encoding means the Standard Encoding (TN5176 default); for CID-keyed fonts an absent top-level "
         "FontMatrix means the identity and an absent Font DICT FontMatrix means 0.001 0 0 0.001 0 0",
